@@ -54,4 +54,12 @@ void *gb_alloc(size_t n, size_t sz, unsigned char fill);
 int gb_ok(void *p);                                     /* canaries intact */
 void gb_free(void *p);
 void vt_overrun_check(void *p, const char *f, uint64_t arg); /* emits an Overrun event if the canaries of p are damaged */
+/* guarded heap for the drivers: see vtrace.c */
+void *vt_gmalloc(size_t sz); void *vt_gcalloc(size_t n, size_t sz); void *vt_grealloc(void *p, size_t sz); void vt_gfree(void *p);
+#ifndef VT_NO_GUARD_MACROS
+#define malloc(sz) vt_gmalloc((sz))
+#define calloc(n, sz) vt_gcalloc((n), (sz))
+#define realloc(p, sz) vt_grealloc((p), (sz))
+#define free(p) vt_gfree((p))
+#endif
 #endif
